@@ -90,7 +90,7 @@ def explore(job):
     moduli = [recorder.BN254, recorder.BLS381, recorder.C25519]
     for n in range(job["nprogs"]):
         rnd = random.Random("%s/%d" % (job["seed"], n))
-        feats = rnd.choice(FEATURE_MIXES)
+        feats = rnd.choice([f for f in FEATURE_MIXES if "fxp" in f] if job.get("force_fxp") else FEATURE_MIXES)
         modulus = rnd.choice(moduli)
         if "small_primes" in job and rnd.random() < 0.15:
             g = G.Gen(rnd, bl=rnd.choice([3, 4, 5]), res=rnd.choice([0, 1]), features=feats)
@@ -218,9 +218,18 @@ def differential(runs, props, prog, inputs, out, chunks, modulus, key, tags, vki
     """compare the API run with the native twin on the same inputs"""
     from vf.gen import prog as G
     from vf.ref import model
-    ref = G.run_ref(prog, inputs, chunks=chunks)
+    ref = G.run_ref(prog, inputs, chunks=chunks, p=modulus)
     must = isinstance(ref.exc, model.MustRaise)
     ref_other = ref.exc is not None and not must
+    masked = [f for f in ref.flags if f.startswith("mech:") or f.startswith("huge:")]
+    if masked:
+        # a known mechanism (judged exactly by the operation half) or a value beyond p/2 occurred somewhere in this run,
+        # possibly inside a region whose variables are not visible: everything downstream legitimately differs
+        for p in props & {"C05", "C14"}:
+            runs[p].count("twin_runs")
+            runs[p].count("not_judged:" + masked[0].split(":")[0])
+        return
+    ref.flags = [f for f in ref.flags]
     for p in props & {"C05", "C14"}:
         runs[p].count("twin_runs")
     if ref_other:
@@ -230,6 +239,11 @@ def differential(runs, props, prog, inputs, out, chunks, modulus, key, tags, vki
         return
     fx_prog = any(c.startswith("P") and c.endswith("Fxp") for c, _ in prog.inputs)
     owner = "C14" if fx_prog and "C14" in props else ("C05" if "C05" in props else None)
+    if out.exc is not None and raised_under_false_guard(out.exc):
+        # an exception that escapes a region whose guard is false is C07's subject, not a domain question
+        for p in props & {"C05", "C14"}:
+            runs[p].count("api_raised_under_false_guard(C07)")
+        return
     if out.exc is not None:
         # API raised: allowed if the twin must raise at (or before) that statement, or flagged the domain
         if must and ref.stmt is not None and ref.stmt <= out.stmt:
@@ -239,6 +253,10 @@ def differential(runs, props, prog, inputs, out, chunks, modulus, key, tags, vki
         if ref.flags:
             for p in props & {"C05", "C14"}:
                 runs[p].count("api_raised_outside_inner_domain")
+            return
+        if any(hasattr(v, "num") and abs(v.num()) >= modulus // 4 for k, v in ref.ns.items() if k[0] in "vxg" and k[1:].isdigit()):
+            for p in props & {"C05", "C14"}:
+                runs[p].count("api_raised_with_values_beyond_p/4")
             return
         if ref.exc is None or (must and ref.stmt > out.stmt):
             stmts = stmt_tag_map(prog)
@@ -277,6 +295,9 @@ def differential(runs, props, prog, inputs, out, chunks, modulus, key, tags, vki
         own = "C14" if (kind == "fxp" or r.kind == "fxp") else "C05"
         if own not in props:
             continue
+        if abs(rnum) >= half // 2:
+            runs[own].count("stopped_at_value_beyond_p/4")
+            break
         ncmp[own] += 1
         scale = (1 << prog.res) if (kind == "fxp" or r.kind == "fxp") else 1
         a, b = num * scale, rnum * scale
@@ -296,6 +317,20 @@ def differential(runs, props, prog, inputs, out, chunks, modulus, key, tags, vki
             runs[own].case(cell=[t for t in tags] + ["vec:" + vkind], key=key, nontrivial=n > 0)
             if n:
                 runs[own].sample(dict(src=prog.src, inputs=inputs, compared=n), cap=3)
+
+
+def raised_under_false_guard(exc):
+    """did the exception pass through a guarded()/lazy region whose condition value is 0?"""
+    tb = exc.__traceback__
+    while tb is not None:
+        fr = tb.tb_frame
+        if fr.f_code.co_name == "__guarded":
+            cond = fr.f_locals.get("cond")
+            v = getattr(getattr(cond, "lc", cond), "value", None)
+            if v == 0:
+                return True
+        tb = tb.tb_next
+    return False
 
 
 def _operands(st):
